@@ -1150,6 +1150,14 @@ def grading_case(spec):
         tn, fn, text, ln = describe_exception(e)
         return dict(status="failed", n0=None, n1=None, bad=[("history/no-raise", "building the history raised {} in {} at `{}` (mesh.py:{})".format(
             tn, fn, text, ln))])
+    # earlier gradings of the SAME mesh object with other exponents (a graded mesh is a reachable mesh): whatever they leave on the
+    # mesh or on its elements must not influence this call
+    for ps in spec.get("prior_same", []):
+        try:
+            if guarded_grading(mesh, ps, K, spec.get("max_leaves", 20000), spec.get("max_seconds", 20)) != "ok":
+                return dict(status="not_finished", n0=None, n1=None, bad=[])
+        except (Exception, RecursionError):
+            return dict(status="not_finished", n0=None, n1=None, bad=[])      # reported by the case that grades with `ps` itself
     old = list(mesh.leaf_elements)
     old_set = set(old)
     bad = []
@@ -1323,6 +1331,10 @@ def _grading_task(task):
             for n_prior, sigma in enumerate(order):
                 spec = dict(kind="grading", init=init.spec(), ops=history_json(ops), sigma=sigma, K=4, prior=list(order[:n_prior]), **caps)
                 one(fam, spec, len(ops))
+            # the same mesh graded again with another exponent
+            spec = dict(kind="grading", init=init.spec(), ops=history_json(ops), sigma=order[1], K=4, prior=list(order),
+                        prior_same=[order[0]], **caps)
+            one(fam, spec, len(ops))
         return _shrink(out)
     _, i, seed, steps, caps = task
     rng = random.Random("{}/grading/{}".format(seed, i))
@@ -1364,6 +1376,9 @@ def _grading_task(task):
     for n_prior, sigma in enumerate(order):
         spec = dict(spec0, sigma=sigma, K=4, prior=list(order[:n_prior]), **caps)
         one(group, spec, length)
+    # chains on the SAME mesh object: sigma_a, then sigma_b (and sigma_c) -- the window of the last call is checked
+    one(group, dict(spec0, sigma=order[1], K=4, prior=list(order), prior_same=[order[0]], **caps), length)
+    one(group, dict(spec0, sigma=order[2], K=4, prior=list(order), prior_same=[order[0], order[1]], **caps), length)
     return _shrink(out)
 
 
@@ -1526,12 +1541,12 @@ def _run_grading(chk, prop, tier, seed, pool, log):
         gpool.terminate()
         gpool.join()
     for fam in states:
-        fd.mark_checked(fam, GRADING_CLAUSES, 3 * len(states[fam]))
+        fd.mark_checked(fam, GRADING_CLAUSES, 4 * len(states[fam]))
     for g in ["random"] + ["curve-" + c for c in CURVES]:
-        fd.mark_checked(g, GRADING_CLAUSES, tot["random"]["evals"] // (9 if g.startswith("curve") else 3))
+        fd.mark_checked(g, GRADING_CLAUSES, tot["random"]["evals"] // (15 if g.startswith("curve") else 5))
     chk.add_bounded("C19/bounded/states", tot["states"]["evals"], sum(1 for l in states.values() for _, n in l if n > 1),
                     "every state of the BFS ({}) x sigma in (1, 1.5, 2), K = 4; cap 20000 leaves / {} s per call: "
-                    "{} calls not finished".format(_depth_text(depths), caps["max_seconds"], tot["states"]["nf"]),
+                    "{} calls not finished; plus one chain per state (the same mesh graded with a second exponent)".format(_depth_text(depths), caps["max_seconds"], tot["states"]["nf"]),
                     "refine_grading on the real mesh rebuilt from the history; oracle: no exception, window for every leaf, "
                     "only refines, well_formed",
                     [dict(init=f, history=history_short(dec_hist(l[-1][0], scales[f])), leaves=l[-1][1])
